@@ -3,7 +3,7 @@
 # quick checks of the given properties, and restore the tree whatever happens.
 # usage: tools/try_mutant.sh <patch.diff> <ID> [<ID>...]     (env VERIF_RUNS etc. pass through)
 set -u
-patch="$1"; shift
+patch="$(readlink -f "$1")"; shift
 cd /verif
 if ! git -C /repo diff --quiet; then echo "refusing: /repo has uncommitted changes" >&2; exit 2; fi
 restore() { git -C /repo checkout -- . ; }
